@@ -16,8 +16,11 @@ RULE = ("cache_geom: constructor at a in {38,39,40,129,130,131,200,1e6,...} x (E
         "per-level FNV-1a checksums incl. x >= 8e12 where prefix counts exceed 65535; cache_lookup(+_spec): phi_cache(y, b) for "
         "EVERY y <= max_x_ and b = 9..k (k <= 60) on small caches, windows in list form; cache_rec: phi<+-1>(y, b) sequences on one "
         "object (targets: larger_c start, init_cache growth, pi table exits); cache_main: main loop of phi_OpenMP on one object vs "
-        "phiThread/phiCpp and vs primecount::phi; distinct = distinct op lines")
-TRUSTED = ["harness/ops_phicache.cpp compiles src/phi.cpp into the harness (`#define private public`, primecount::phi renamed) to "
+        "phiThread/phiCpp and vs primecount::phi; vec_cache / vec_run: the same geometry / dump ops on the template copy of the class "
+        "in src/phi_vector.cpp (max_x = isqrt x) and phi_vector(x, a) on it (copy in the harness TU and the library's) vs phiVectorS; "
+        "distinct = distinct op lines")
+TRUSTED = ["harness/ops_phicache_vec.cpp does the same with src/phi_vector.cpp (template copy of the class)",
+           "harness/ops_phicache.cpp compiles src/phi.cpp into the harness (`#define private public`, primecount::phi renamed) to "
            "reach the file-local class PhiCache; a changed phi.cpp changes these ops and the library alike",
            "mirror side = Pc.PhiCacheL2 (State.new / initCache / phiCache / phiRecS / phiThread / phiCpp) run by "
            "lean/PcModel/Drv/PhiCache.lean with the driver's own prime and pi tables; the float E travels from the implementation",
@@ -315,4 +318,71 @@ def streams(ctx):
             ops.append("phicache_main %d %d" % (x, a))
     out.append(Stream("cache_main", ops, oracle=False, model_ops=mops_for(), judge=judge_same, timeout=1800,
                       classify=lambda op, r: regime(int(op.split()[1]), int(op.split()[2]))))
+
+    # ---- (f) the SECOND copy of the class (template in src/phi_vector.cpp, max_x = isqrt(x)) and phi_vector running on it
+    #          (harness/ops_phicache_vec.cpp); the model ops are the same, the implementation's isqrt(x) travels as `maxXEst`
+    def vec_mops(ops_, impl):
+        res = []
+        for o, r in zip(ops_, impl):
+            w = o.split()
+            e = r.split("|")[0] if "|" in r and r.split("|")[0].isdigit() else "0"
+            if w[0] == "phivec_run":
+                res.append("phivec_run_m %s %s" % (w[1], w[2]))
+            elif w[4] == "geom":
+                res.append("phicache_geom_m %s %s %s" % (e, w[1], w[2]))
+            else:
+                res.append("phicache_dump_m %s %s %s %s" % (e, w[1], w[2], " ".join(w[4:])))
+        return res
+
+    def geometry_e(e, a):
+        max_a = min(a - min(a, 30), 100)
+        if max_a <= 8:
+            return (0, 0, 0)
+        limit = ((16 << 20) // (max_a - 8)) * 20
+        size = (min(e, limit) + 239) // 240
+        return (0, size, 0) if size < 8 else (size * 240 - 1, size, max_a)
+
+    def x_with_isqrt(e):
+        return e * e + rng.randint(0, 2 * e)
+    ops, kinds = [], {}
+    es = [1679, 1680, 1681, 1920, 1921, 3647220, 3647221, 335544320, 335544321, 2 ** 31 - 1] + [logu(1, 2 ** 31 - 1) for _ in range(10 if q else 200)]
+    for e in es:
+        for a in [38, 39, 40, 129, 130, 131, 10 ** 6, rng.randint(1, 400)]:
+            op = "phivec_cache %d %d %s geom" % (x_with_isqrt(e), a, rng.choice(["u32", "i64"]))
+            kinds[op] = "geom"
+            ops.append(op)
+    for w in [8, 9, 60] + [rng.randint(8, 60) for _ in range(6 if q else 60)]:
+        e = rng.randint((w - 1) * 240 + 1, w * 240)
+        for a in {rng.choice([39, 40, 129, 130]), rng.randint(41, 250)}:
+            ma = geometry_e(e, a)[2]
+            if ma == 0:
+                continue
+            for kind in ("single", rng.choice(["incr", "random", "partial"])):
+                op = "phivec_cache %d %d %s full %s" % (x_with_isqrt(e), a, rng.choice(["u32", "i64"]), " ".join(str(k) for k in seqs(ma, kind)))
+                kinds[op] = "full/" + kind
+                ops.append(op)
+    for i in range(3 if q else 20):
+        e = logu(60 * 240, 4 * 10 ** 5) if i else rng.randint(4 * 10 ** 5, 5 * 10 ** 5)    # the last one: prefix counts > 65535
+        a = rng.choice([39, 45, 130])
+        ma = geometry_e(e, a)[2]
+        ks = sorted({9, rng.randint(9, min(ma, 12))}) if not i else seqs(min(ma, 20), "random")
+        op = "phivec_cache %d %d %s sum %s" % (x_with_isqrt(e), a, rng.choice(["u32", "i64"]), " ".join(str(k) for k in ks))
+        kinds[op] = "sum/count>65535" if not i else "sum"
+        ops.append(op)
+    out.append(Stream("vec_cache", ops, oracle=False, model_ops=vec_mops, judge=judge_same, timeout=1800,
+                      classify=lambda op, r, kinds=kinds: kinds.get(op, "?")))
+    ops, kinds = [], {}
+    for x in list(range(0, 40 if q else 400)) + [P[k] ** 2 + d for k in (5, 9, 10, 40, 100) for d in (-1, 0, 1)]:
+        for a in sorted({1, 2, 8, 9, 10, rng.randint(1, 30)}):
+            op = "phivec_run %d %d %s" % (x, a, rng.choice(["u32", "i64"]))
+            kinds[op] = "small"
+            ops.append(op)
+    for _ in range(40 if q else 600):
+        x = logu(3 * 10 ** 6, 10 ** 10 if q else 10 ** 12)
+        a = rng.choice([39, 40, 41, rng.randint(42, 128), 129, 130, 131, rng.randint(132, 600)])
+        op = "phivec_run %d %d %s" % (x, a, rng.choice(["u32", "i64"]))
+        kinds[op] = "cache active" if geometry_e(math.isqrt(x), min(a, bisect.bisect_right(P, x) - 1 if x < P[-1] else a))[2] else "no cache"
+        ops.append(op)
+    out.append(Stream("vec_run", ops, oracle=False, model_ops=vec_mops, judge=judge_same, timeout=1800,
+                      classify=lambda op, r, kinds=kinds: kinds.get(op, "?")))
     return out
